@@ -403,8 +403,20 @@ func cleanupChains(e *Env) []*Program {
 	var progs []*Program
 	maxN := e.tierN(8, 10)
 	// chains with 1..N cleanup+error providers
+	// long chains: the numbering of the cleanup variables passes 10 and 20 (and 100), where
+	// numeric and textual order of their names part ways
+	lengths := []int{12, 23}
+	if e.Tier == "thorough" {
+		lengths = append(lengths, 37, 104)
+	}
 	for n := 1; n <= maxN; n++ {
+		lengths = append(lengths, n)
+	}
+	for _, n := range lengths {
 		for variant := 0; variant < 3; variant++ {
+			if n > maxN && variant == 2 {
+				continue
+			}
 			b := NewPB(fmt.Sprintf("ch%d_%d", n, variant), "app")
 			var prev *Ty
 			var items []*Item
